@@ -42,7 +42,7 @@ type config struct {
 }
 
 type replayCase struct {
-	Kind string `json:"kind"` // positive | cycle | unknown
+	Kind string `json:"kind"` // positive | cycle | unknown | scope
 	prog.Case
 	Builtins []string     `json:"builtins,omitempty"`
 	Config   config       `json:"config"`
@@ -334,13 +334,13 @@ func runPositive(rec sink, in posInput, noopt bool, want run.Outcome) (*finding,
 	if f, stop := judge("second-vm", exec(ugo.NewVM(bc).SetRecover(true)), sig2); stop {
 		return f, nil
 	}
-	rec.Class("cfg:second-vm")
+	rec.Class("second-vm")
 	// second Run on the first VM after Clear(): modules load again, once
 	vmA.Clear()
 	if f, stop := judge("clear-rerun", exec(vmA), "module:clear-rerun-differs"); stop {
 		return f, nil
 	}
-	rec.Class("cfg:clear-rerun")
+	rec.Class("clear-rerun")
 	// encoder round trip with the same module map
 	if bc2, err := encodeDecode(bc, env.mm); err != nil {
 		rec.Exclude("roundtrip-encode-decode-error(C04)")
@@ -348,7 +348,7 @@ func runPositive(rec sink, in posInput, noopt bool, want run.Outcome) (*finding,
 		if f, stop := judge("roundtrip", exec(ugo.NewVM(bc2).SetRecover(true)), "module:roundtrip-differs"); stop {
 			return f, nil
 		}
-		rec.Class("cfg:roundtrip")
+		rec.Class("roundtrip")
 		// and the original bytecode is still intact after the decoded one ran
 		if len(in.builtins) > 0 {
 			if f, stop := judge("after-roundtrip-run", exec(ugo.NewVM(bc).SetRecover(true)), "module:builtin-shared-between-vms"); stop {
@@ -363,7 +363,7 @@ func runPositive(rec sink, in posInput, noopt bool, want run.Outcome) (*finding,
 			if f, stop := judge("recompile-same-modulemap", exec(ugo.NewVM(cr2.bc).SetRecover(true)), "module:builtin-shared-between-vms"); stop {
 				return f, nil
 			}
-			rec.Class("cfg:recompile")
+			rec.Class("recompile-same-modulemap")
 		}
 		if after := env.dumpAttrs(); after != before {
 			return &finding{sig: "module:builtin-shared-between-vms", mode: "modulemap-attrs",
@@ -393,9 +393,13 @@ func runNegative(rec sink, g *negGraph, cfg config) *finding {
 	}
 	what := "an import cycle"
 	notReported := fmt.Sprintf("module:cycle-not-reported:len%d", g.CycleLen)
-	if g.Kind == "unknown" {
+	switch g.Kind {
+	case "unknown":
 		what = "an unknown module"
 		notReported = "module:unknown-not-reported"
+	case "scope":
+		what = "a reference to a local variable of an imported module"
+		notReported = "module:locals-leak"
 	}
 	switch {
 	case cr.pan != "":
@@ -414,7 +418,11 @@ func runNegative(rec sink, g *negGraph, cfg config) *finding {
 	text := cr.err.Error()
 	named := false
 	for _, n := range g.Names {
-		if g.Kind == "cycle" {
+		if g.Kind == "scope" {
+			if strings.Contains(text, `unresolved reference "`+n+`"`) {
+				named = true
+			}
+		} else if g.Kind == "cycle" {
 			if strings.Contains(text, "cyclic module import: "+n) || (cfg.FileImporter && strings.Contains(text, "cyclic module import: /w/"+n)) {
 				named = true
 			}
@@ -433,7 +441,7 @@ func runNegative(rec sink, g *negGraph, cfg config) *finding {
 
 func TestCheck(t *testing.T) {
 	rec := ev.New("C12")
-	rec.Rule = "own import-graph generator: 1-6 source modules m0..m5 (module mi imports only lower-numbered ones: eagerly at top level, under a data condition, in a loop, lazily inside functions stored in its returned map, relayed through another module's lazy import) + 0-2 builtin modules; every module logs 'load mK' through L, keeps a counter n captured by inc/get, returns a map of functions and constants (some modules have params or no return). Main: imports bound to variables, identity probes (write a field through one import path, read it through another: direct / variable / function / IIFE / view function of another module), inc through one path and get through another, imports under param/global conditions, in loops, in functions called 0..n times, builtin reads/writes, optional error ending. Each graph x optimizer on/off x {fresh VM, second VM from the same Bytecode, Run after vm.Clear(), encoder round trip, recompile with the same ModuleMap} x plain ModuleMap / importers.FileImporter (with path aliases of the same file). Oracle: reference interpreter outcome + direct checks on the VM log. Negative: cycles of length 1-4 and unknown names in every placement must be compile errors naming the module. Non-trivial = some module imported from >= 2 sites, a diamond (>= 2 importing files) or a cycle; distinct by rendered sources + inputs"
+	rec.Rule = "own import-graph generator: 1-6 source modules m0..m5 (module mi imports only lower-numbered ones: eagerly at top level, under a data condition, in a loop, lazily inside functions stored in its returned map, relayed through another module's lazy import) + 0-2 builtin modules; every module logs 'load mK' through L, keeps a counter n captured by inc/get, returns a map of functions and constants (some modules have params or no return). Main: imports bound to variables, identity probes (write a field through one import path, read it through another: direct / variable / function / IIFE / view function of another module / callback invoked from a Go function on a child VM), inc through one path and get through another, two imports in one expression, imports under param/global conditions, in loops, in try/finally, in functions called 0..n times, builtin reads/writes (top-level keys, nested map/array, new keys), optional error ending. Each graph x optimizer on/off x {fresh VM, second VM from the same Bytecode, Run after vm.Clear(), encoder round trip, recompile with the same ModuleMap} x plain ModuleMap / importers.FileImporter (with path aliases of the same file). Oracle: reference interpreter outcome + direct checks on the VM log. Negative: cycles of length 1-4 and unknown names in every placement must be compile errors naming the module; a main script naming a module-level variable of an imported module must be an unresolved reference. Non-trivial = some module imported from >= 2 sites, a diamond (>= 2 importing files) or a cycle; distinct by rendered sources + inputs"
 	rec.Assumptions = []string{
 		"a module never returns a container it also keeps a reference to (only functions closing over its locals and constants): the VM deep-copies Copier values when storing the module, closures keep sharing their cells; that aliasing corner is excluded by construction",
 		"a module's locals are reachable only through its returned value: implied by construction (module variables are only touched by the module's own functions) and by the compiler rejecting unresolved names (TestVMSourceModules)",
@@ -559,7 +567,7 @@ func TestCheck(t *testing.T) {
 			if kind == "cycle" {
 				rec.Class(fmt.Sprintf("cycle-len-%d", g.CycleLen))
 			} else {
-				rec.Class("unknown")
+				rec.Class(kind)
 			}
 			for _, e := range g.Edges {
 				if i := strings.LastIndex(e, "("); i >= 0 {
@@ -569,14 +577,27 @@ func TestCheck(t *testing.T) {
 			if fileImp {
 				rec.Class("via-file-importer")
 			}
-			rec.Class("nontrivial")
-			rec.NonTriv(g.Src + "\x00" + modText(g.Modules))
+			// non-trivial: a cycle, or some module imported from >= 2 sites
+			sites := map[string]int{}
+			multi := false
+			for _, e := range g.Edges {
+				if i, j := strings.Index(e, "->"), strings.LastIndex(e, "("); i >= 0 && j > i {
+					sites[e[i+2:j]]++
+					multi = multi || sites[e[i+2:j]] >= 2
+				}
+			}
+			if kind == "cycle" || multi {
+				rec.Class("nontrivial")
+				rec.NonTriv(g.Src + "\x00" + modText(g.Modules))
+			}
 			rec.Sample(map[string]any{"kind": kind, "edges": g.Edges, "names": g.Names})
 		})
 	}
 	negative("cycle", ev.N(500, 6000), 3)
 	rec.Unfreeze()
 	negative("unknown", ev.N(300, 3000), 4)
+	rec.Unfreeze()
+	negative("scope", ev.N(150, 1500), 5)
 }
 
 func modText(m map[string]string) string {
@@ -627,7 +648,7 @@ func runReplays(t *testing.T, rec *ev.Rec) {
 				t.Errorf("replay %s: %v", rf.Path, herr)
 				continue
 			}
-		case "cycle", "unknown":
+		case "cycle", "unknown", "scope":
 			g := &negGraph{Kind: c.Kind, Src: c.Src, Modules: c.Modules, Names: c.Names, CycleLen: c.CycleLen, Edges: c.Edges}
 			f = runNegative(nullSink{rec}, g, c.Config)
 		default:
